@@ -110,7 +110,8 @@ def run(rep, ctx):
     repo = ctx["repo"]
     _REPO[0] = repo
     jobs = [dict(unit=U, fn=[r"mp::ConstraintPreprocessors::.*", r"mp::PreprocessInfo::.*", r"mp::BoundComputations::.*",
-                             r"mp::FlatModel::(lb_array|lb_max_array|ub_array|ub_min_array|common_type|is_binary_var)"], repo=repo)]
+                             r"mp::FlatModel::(lb_array|lb_max_array|ub_array|ub_min_array|common_type|is_binary_var)",
+                             r"mp::FlatModel::(lb_array|lb_max_array|ub_array|ub_min_array|common_type|is_binary_var)::.*"], repo=repo)]
     F = Facts(export_many(jobs))
     rep.note_units([U])
     funcs = [f for f in F.funcs if not f.is_dependent() and f.cfg is not None]
@@ -245,12 +246,40 @@ def run(rep, ctx):
     if not cts:
         raise AnalysisBroken("C06.F2: FlatModel::common_type not found")
     for g in cts[:3]:
+        # the per-element predicate "keeps INTEGER": from the loop form (the type is demoted when the test holds) or from
+        # std::all_of / none_of with a lambda whose verdict selects INTEGER
         ifs = [n for n in g.walk() if n["k"] == "IfStmt"]
-        asg = [n for n in g.walk() if n["k"] == "BinaryOperator" and n.get("op") == "=" and norm(render(kids(n)[0])) == "type"]
-        init = [v for v in g.walk() if v["k"] == "VarDecl" and v.get("name") == "type"]
+        asg = [n for n in g.walk() if n["k"] == "BinaryOperator" and n.get("op") == "=" and "CONTINUOUS" in render(kids(n)[1])]
         rets = [r for r in g.walk() if r["k"] == "ReturnStmt"]
-        ok = len(ifs) == 1 and len(asg) == 1 and len(init) == 1 and "INTEGER" in render(init[0]) and "CONTINUOUS" in render(asg[0]) and len(rets) == 1 and norm(render(kids(rets[0])[0])) == "type" \
-            and any(n["k"] == "CXXForRangeStmt" for n in g.walk())
+        pred = None            # (expression node, True if the expression says "integral", False if it says "demote")
+        ok = False
+        if len(ifs) == 1 and len(asg) == 1 and len(rets) == 1 and any(n["k"] in ("CXXForRangeStmt", "ForStmt", "WhileStmt") for n in g.walk()) and \
+                any(x["i"] == asg[0]["i"] for x in walk(ifs[0])):
+            init = [v for v in g.walk() if v["k"] == "VarDecl" and kids(v) and "INTEGER" in render(kids(v)[0])]
+            tgt = strip(kids(asg[0])[0])
+            if len(init) == 1 and tgt.get("declId") == init[0]["declId"] and strip(kids(rets[0])[0]).get("declId") == init[0]["declId"]:
+                pred, ok = (kids(ifs[0])[0], False), True
+        if not ok:
+            algo = [c for c in g.walk() if c["k"] == "CallExpr" and (c.get("callee") or "").split("::")[-1] in ("all_of", "none_of", "any_of") and len(call_args(c)) == 3]
+            lam = [h for h in F.funcs if h.qn == g.qn + "::(lambda)::operator()" and not h.is_dependent()]
+            if len(algo) == 1 and lam and len(rets) == 1:
+                lrets = [r for r in lam[0].walk() if r["k"] == "ReturnStmt"]
+                e_ret = strip(expand_locals(g, kids(rets[0])[0], 0, True))
+                kind_ = algo[0]["callee"].split("::")[-1]
+                if len(lrets) == 1 and e_ret["k"] == "ConditionalOperator" and any(x["i"] == algo[0]["i"] for x in walk(kids(e_ret)[0])):
+                    c_, a_, b_ = kids(e_ret)
+                    neg = strip(c_)["k"] == "UnaryOperator" and strip(c_).get("op") == "!"
+                    int_if_true = "INTEGER" in render(a_) and "CONTINUOUS" in render(b_)
+                    int_if_false = "CONTINUOUS" in render(a_) and "INTEGER" in render(b_)
+                    if int_if_true or int_if_false:
+                        algo_true_means_integer = (int_if_true != neg)
+                        # all_of(P): true <=> every element satisfies P;  none_of(P)/any_of(P): P marks the demoting elements
+                        if kind_ == "all_of" and algo_true_means_integer:
+                            pred, ok = (kids(lrets[0])[0], True), True
+                        elif kind_ == "none_of" and algo_true_means_integer:
+                            pred, ok = (kids(lrets[0])[0], False), True
+                        elif kind_ == "any_of" and not algo_true_means_integer:
+                            pred, ok = (kids(lrets[0])[0], False), True
         bad = None
         if ok:
             try:
@@ -258,7 +287,8 @@ def run(rep, ctx):
                     for b in (False, True):
                         for c in (False, True):
                             env = {"is_integer_var(v)": a, "is_fixed(v)": b, "is_integer_value(fixed_value(v))": c}
-                            demoted = truth(kids(ifs[0])[0], env)
+                            val = truth(pred[0], env)
+                            demoted = (not val) if pred[1] else val
                             integral = a or (b and c)
                             if not integral and not demoted:
                                 bad = "an argument that is %san integer variable, %sfixed%s keeps the result type INTEGER" % ("" if a else "not ", "" if b else "not ", (" at an integer value" if c else " at a fractional value") if b else "")
@@ -534,11 +564,36 @@ def run(rep, ctx):
         badq = None
         if len(ty) == 1:
             import itertools
+
+            class _QEnv(dict):
+                """atoms of the type test by what they ask, whatever names the term's parts carry: which variable of the
+                product (var1 / var2 of term i) is tested for integrality, or the coefficient"""
+                def __init__(self, i1, i2, ic):
+                    self.v = (i1, i2, ic)
+
+                def _cls(self, t):
+                    which = 0 if re.search(r"(var1\(i\)|\bv1\b)", t) else 1 if re.search(r"(var2\(i\)|\bv2\b)", t) else None
+                    if "var_type(" in t and "INTEGER" in t and which is not None:
+                        return (not self.v[which]) if "!=" in t else self.v[which]
+                    if "is_integer_var(" in t and which is not None:
+                        return self.v[which]
+                    if re.match(r"^is_integer\((coef|qt\.coef\(i\))\)$", t):
+                        return self.v[2]
+                    raise KeyError(t)
+
+                def __contains__(self, t):
+                    try:
+                        self._cls(t)
+                        return True
+                    except KeyError:
+                        return False
+
+                def __getitem__(self, t):
+                    return self._cls(t)
             for i1, i2, ic in itertools.product((False, True), repeat=3):
-                env = {"INTEGER!=model.var_type(v1)": not i1, "INTEGER!=model.var_type(v2)": not i2, "model.is_integer_var(v1)": i1, "model.is_integer_var(v2)": i2,
-                       "is_integer(coef)": ic, "model.var_type(v1)!=INTEGER": not i1, "model.var_type(v2)!=INTEGER": not i2}
+                env = _QEnv(i1, i2, ic)
                 try:
-                    dem = truth(kids(ty[0])[0], env)
+                    dem = truth(expand_locals(f, kids(ty[0])[0], 0, True), env)
                 except KeyError as ke:
                     raise AnalysisBroken("C06.B1: unrecognised atom %s in the type test of the quadratic terms" % ke)
                 if not (i1 and i2 and ic) and not dem:
